@@ -119,7 +119,9 @@ func (a *Arguments) Targets() (specs []*generator.LangSpec, err error) {
 func (a *Arguments) checkOptions(opts []plugin.Option) ([]plugin.Option, error) {
 	params := plugin.Pack(opts)
 	cu := golang.NewCodeUtils(backend.DummyLogFunc())
-	cu.HandleOptions(params)
+	if err := cu.HandleOptions(params); err != nil {
+		return nil, err
+	}
 	if cu.Features().EnableNestedStruct {
 		// In nested mode, if template is not 'slim', it is automatically converted to slim
 		if cu.Template() != "slim" || cu.Template() != "raw_struct" {
